@@ -27,7 +27,6 @@ from diffpy.structure import Lattice, Structure
 import numpy as np
 
 from orix.crystal_map import CrystalMap, PhaseList
-from orix.crystal_map.crystal_map import _data_slices_from_coordinates
 from orix.quaternion import Rotation
 
 __all__ = ["file_reader"]
@@ -266,8 +265,8 @@ def _get_phases_from_header(header: List[str]) -> dict:
 
 
 def _fix_astar_coords(header: List[str], data_dict: dict) -> dict:
-    """Return the data dictionary with coordinate arrays possibly fixed
-    for ASTAR Index files.
+    """Return the data dictionary with coordinate arrays fixed for
+    ASTAR Index files.
 
     Parameters
     ----------
@@ -279,29 +278,25 @@ def _fix_astar_coords(header: List[str], data_dict: dict) -> dict:
     Returns
     -------
     data_dict
-        Dictionary with possibly fixed coordinate arrays.
+        Dictionary with fixed coordinate arrays.
 
     Notes
     -----
     ASTAR Index files may have fewer decimals in the coordinate columns
     than in the X/YSteps header values (e.g. X_1 = 0.0019 vs.
     XStep = 0.00191999995708466). This may cause our crystal map
-    algorithm for finding the map shape to fail. We therefore run this
-    algorithm and compare the found shape to the shape given in the
-    file. If they are different, we use our own coordinate arrays.
+    algorithm for finding the map shape to fail. We therefore use our
+    own coordinate arrays, created from the map shape and step sizes
+    given in the file header.
     """
-    coords = {k: data_dict[k] for k in ["x", "y"]}
-    slices = _data_slices_from_coordinates(coords)
-    found_shape = (slices[0].stop + 1, slices[1].stop + 1)
     cells = _get_xy_cells(header)
     shape = (cells["y"], cells["x"])
-    if found_shape != shape:
-        steps = _get_xy_step(header)
-        y, x = np.indices(shape, dtype=np.float64)
-        y *= steps["y"]
-        x *= steps["x"]
-        data_dict["y"] = y.ravel()
-        data_dict["x"] = x.ravel()
+    steps = _get_xy_step(header)
+    y, x = np.indices(shape, dtype=np.float64)
+    y *= steps["y"]
+    x *= steps["x"]
+    data_dict["y"] = y.ravel()
+    data_dict["x"] = x.ravel()
     return data_dict
 
 
